@@ -18,11 +18,11 @@ M = 'xtuml.meta:'
 
 
 def run(ctx):
-    pipe(ctx)
-    where_filter(ctx)
-    siblings(ctx)
-    order(ctx)
-    nav(ctx)
+    ctx.guard(pipe, ctx)
+    ctx.guard(where_filter, ctx)
+    ctx.guard(siblings, ctx)
+    ctx.guard(order, ctx)
+    ctx.guard(nav, ctx)
     ctx.assume('equality of a result with the relational evaluation of a concrete model state is a runtime quantity and is not decided')
     ctx.assume('OrderedSet behaves as an insertion-ordered set (C17, not claimed)')
     return ('Abstract tables of apply_query_operators (operator kind -> stage) and WhereEqual (per-component match flags -> yield); '
@@ -48,6 +48,7 @@ def pipe(ctx):
     atoms = [('isinstance(%s, _T)' % ov, isinst)]
     effects = [('%s = _V' % it_p, lambda e, s, tr: tr.append(src(e['_V'])))]
     it = absint.Interp(fn, atoms, effects)
+    it.skip = lambda st: isinstance(st, ast.Expr)
     want = {'WhereEqual': '%s(%s)' % (ov, it_p), 'OrderBy': '%s(%s)' % (ov, it_p), 'dict': 'WhereEqual(%s)(%s)' % (ov, it_p),
             'callable': 'filter(%s, %s)' % (ov, it_p)}
     for kind, w in want.items():
@@ -186,8 +187,13 @@ def nav(ctx):
             msg='MetaClass.navigate is no longer: key lookup in self.links -> link.navigate(inst); otherwise union (OrderedSet |=) of '
                 'link2.navigate over link1.navigate(inst)')
     fa = repo.func(M + 'MetaClass._find_assoc_links')
-    ok = any(isinstance(n, ast.If) and src(n.test) == 'link.rel_id != rel_id or link.phrase != phrase' for n in ast.walk(fa)) and \
-        pm.contains('return (link, metaclass.links[key])', fa) or pm.contains('return link, metaclass.links[key]', fa)
+    skip_tests = [n for n in ast.walk(fa) if isinstance(n, ast.If) and len(n.body) == 1 and isinstance(n.body[0], ast.Continue)]
+    conds = set()
+    for n in skip_tests:
+        vals = n.test.values if isinstance(n.test, ast.BoolOp) and isinstance(n.test.op, ast.Or) else [n.test]
+        conds |= set(src(v) for v in vals)
+    ok = conds == {'link.rel_id != rel_id', 'link.phrase != phrase'} and \
+        (pm.contains('return (link, metaclass.links[key])', fa) or pm.contains('return link, metaclass.links[key]', fa))
     r.check(bool(ok), 'the association class is found by association number and phrase, the second hop by the requested kind', fa,
             construct=M + 'MetaClass._find_assoc_links', key='assoc-links', msg='_find_assoc_links no longer matches rel_id and phrase and returns (link, second link)')
     raises = [n for n in ast.walk(fa) if isinstance(n, ast.Raise)]
